@@ -305,9 +305,13 @@ def length_mismatch(flow):
         for pair in ('schemas', 'cred_defs', 'rev_reg_defs'):
             if not objs[pair]:
                 continue
-            for short in ('objects', 'ids'):
+            for short in ('objects', 'ids', 'objects-long', 'ids-long'):
                 o = {k: list(v) for k, v in objs.items()}; i = {k: list(v) for k, v in ids.items()}
-                (o if short == 'objects' else i)[pair].pop()
+                if short == 'objects': o[pair].pop()
+                elif short == 'ids': i[pair].pop()
+                # one member too many at the end: everything the call needs is there, only the lengths disagree
+                elif short == 'objects-long': o[pair].append(o[pair][0])
+                else: i[pair].append('did:web:superfluous/' + pair)
                 hl = {k: handlelist(v) for k, v in o.items()}; sl = {k: strlist(v) for k, v in i.items()}
                 ll, kk = handlelist(lists)
                 res = C.c_int8(-1)
@@ -449,6 +453,19 @@ def ffi_flow():
         pv = (CredProve * len(pvl))(*pvl)
         tmp = H()
         r = in_child(lambda: cp(prh, FfiList(1, C.cast(entries, C.c_void_p)), FfiList(len(pvl), C.cast(pv, C.c_void_p)), FfiList(0, None), FfiList(0, None), secret, sl_, sids_, cl_, cids_, C.byref(tmp)))
+        if what == 'negative entry index':
+            # once more for the self-attested pair: names without values / values without names
+            san, ksan = strlist(['nick']); sav, ksav = strlist(['Al'])
+            good = (CredProve * 2)(CredProve(0, b'a1', 0, 1), CredProve(0, b'p1', 1, 0))
+            for what2, a, b in (('self-attested names without values', san, FfiList(0, None)), ('self-attested values without names', FfiList(0, None), sav)):
+                tmp2 = H()
+                r2 = in_child(lambda: cp(prh, FfiList(1, C.cast(entries, C.c_void_p)), FfiList(2, C.cast(good, C.c_void_p)), a, b, secret, sl, sids, cl, cids, C.byref(tmp2)))
+                cases += 1; count('c17:malformed-in-valid-call')
+                c2 = dict(kind='malformed-in-valid-call', entry='anoncreds_create_presentation', what=what2)
+                if r2[0] == 'signal':
+                    fail('a malformed argument in an otherwise valid call crashed the process', c2, dict(signal=r2[1]))
+                elif r2[1] == 0:
+                    fail('a malformed argument in an otherwise valid call was accepted (returned Success)', c2, dict(rc=0))
         cases += 1; count('c17:malformed-in-valid-call')
         c = dict(kind='malformed-in-valid-call', entry='anoncreds_create_presentation', what=what)
         if r[0] == 'signal':
